@@ -34,13 +34,14 @@ LEVEL_TEXT = (
     "incl. the PathConditions probes, dispatcher entry PathIOError -> 451 + continue, known async-with shapes), for every user table, "
     "decorator table, block size, world (= every prior history, tree and remaining fault plan: single, repeated, or a genuine backend "
     "error) and command: C13_fault_gives_451 (+ _generic: replies are exactly [451] or [150;451]: one 451, no 2xx), "
-    "C13_no_fault_normal_path (converse), C13_session_survives (not ended; user, login, cwd, listener unchanged; restart offset / "
-    "pending rename / data connection follow the fault-free rules), C13_usable_after_fault (PWD -> 257 with the old cwd, PASV -> 227), "
+    "C13_no_fault_normal_path (converse), C13_session_survives (not ended; user, login, cwd, listener unchanged; restart offset "
+    "cleared / pending rename / data connection as by the fault-free rules), C13_usable_after_fault (PWD -> 257 with the old cwd, PASV -> 227), "
     "C13_every_history and C13_faults_never_end_session (every command of every run), C13_others_unaffected and C13_other_steps_alone "
     "(two sessions on one backend), C13_fault_before_150 (final 451 alone, data connection still the session's), "
-    "C13_data_closed_partial (after 150 the detached stream is closed on every fault unless the raising call was the open() of a "
-    "file-first context), C13_data_closed_stream_first (closed on EVERY fault for every parameter set with the repaired order), "
-    "C13_data_closed_refuted (witness: open() raising in RETR g leaves the stream open - F04; replayed on the real code each run). "
+    "C13_data_closed (FULL: after 150 the detached data stream is closed on EVERY fault, open() included; obligation "
+    "C13_stream_first_obligation: both transfer workers enter the stream context before the file - false on the pre-fix order), "
+    "C13_data_closed_stream_first (the same for every parameter set with that order). The restart offset is 0 after any known verb, "
+    "failed transfers included (the dispatcher's hand-over rule). "
     "Tied to the code by C13_source_obligations / C13_probe_obligations (vm_compute on facts regenerated from server.py / pathio.py) "
     "and by scripts x every fault position (single, double; three exception classes; three backends) on the real server."
 )
@@ -64,8 +65,6 @@ TREE = {"d": {"f": b"hello world", "e": {}}, "g": b"0123456789", "m": {"a": b"1"
 BLK = 4
 A, B = 0, 1
 DC = ftpsim.DATACONN
-F4_KEY = "c13-open-fault-leaves-data-connection-open"
-F4_ID = "F04-open-fault-leaves-data-connection-open"
 
 # what the injected failure is: the property speaks of the backend FAILING, whatever it raises
 KINDS = {"os": OSError, "value": ValueError, "runtime": RuntimeError}
@@ -270,12 +269,12 @@ SCRIPTS = {
     "rest-stor": [("REST", "3", None), ("STOR", "g", b"ABCDEF")],
     "rest-retr": [("REST", "3", None), ("RETR", "g", None)],
     "retr-stor": [("RETR", "g", None), "data", ("STOR", "g", b"new content!")],
-    # disk only: r+b on a missing file is a genuine open() failure (the in-memory backend creates the file: C18/F06)
+    # r+b on a missing file is a genuine open() failure (all three backends since MemoryPathIO validates r+b opens)
     "rest-stor-missing": [("REST", "3", None), ("STOR", "nofile", b"ABCDEF")],
     "list-homog": [("LIST", "m", None)],
     "mlsd-homog": [("MLSD", "m", None)],
 }
-MEMORY_SCRIPTS = [s for s in SCRIPTS if s != "rest-stor-missing"]
+MEMORY_SCRIPTS = list(SCRIPTS)
 # on disk the listing order is the file system's: only listings whose entries are all of one kind
 DISK_SCRIPTS = ["mkd", "rmd-nonempty", "dele", "rename", "cwd", "mlst-file", "list-homog", "mlsd-homog", "retr", "stor", "appe",
                 "rest-stor", "rest-stor-missing"]
@@ -415,8 +414,6 @@ def oracle(ctx, name, events, plan, obs, backend, kind="os"):
                 why = "second-session-" + why
         if why:
             key = f"c13-{why}-{v}-{raised[0] if raised else 'nofault'}"
-            if why == "data-not-closed" and raised == ["open"] and v in ("retr", "stor", "appe"):
-                key = F4_KEY
             ctx.violation(
                 f"property oracle: {why} ({verb} {arg}; raising backend calls {raised})",
                 dict(rep, key=key, at=i, event=[who, verb, arg], codes=codes, calls=[list(c) for c in o["calls"]]),
@@ -459,7 +456,7 @@ def correspondence(ctx, budget=None):
     thorough = ctx.tier == "thorough"
     ctx.extra["rule"] = (
         "scripts {MKD, RMD (empty / non-empty = genuine error), DELE, RNFR+RNTO, CWD, MLST dir/file, LIST, MLSD, RETR, STOR, APPE, "
-        "REST+STOR, REST+RETR, RETR then STOR, REST+STOR on a missing file (disk: genuine open failure)} after login of two sessions "
+        "REST+STOR, REST+RETR, RETR then STOR, REST+STOR on a missing file (genuine open failure)} after login of two sessions "
         "and with the data connection made, followed by probes on the same session (PWD, fresh PASV + LIST) and on the second one "
         "(PWD, PASV + RETR); block size 4 so that transfers make several read/write calls. For each script the fault-free run counts "
         "the N backend calls of the whole run; then every single fault k < N and double faults (quick: (k,k+1) and (k,random); thorough: "
@@ -517,20 +514,6 @@ def correspondence(ctx, budget=None):
     ctx.extra["vm_compute_crosscheck"] = {"cases": len(xcheck), "agree": ok}
     if not ok:
         ctx.obligation_broken("extraction-crosscheck", out)
-
-
-def known(ctx):
-    """F4: the witness of C13_data_closed_refuted replayed on the real code"""
-    if not any(f["id"] == F4_ID for f in ctx.kf):
-        return
-    for name in ("retr", "stor"):
-        events = script_events(name)
-        _, _, log0 = run_impl(events, set())
-        k = [m for m, _ in log0].index("open")
-        obs, _, _ = run_impl(events, {k})
-        o = next(o for e, o in zip(events, obs) if e[1].lower() == name)
-        if o["codes"] == ["150", "451"] and o["took"] and not o["closed"] and o["srv_data_open"] >= 1:
-            ctx.known_reproduced(F4_ID, f"{name.upper()} with the backend's open() raising: 150, 451, data connection never closed")
 
 
 def search(ctx):
